@@ -119,16 +119,16 @@ def plan(tier, groups, seed):
             cmds = []
             cmds += groups["H"]
             if is_smt(argv):
-                cmds += corpus.sample(groups["Xrule"], 150, seed + i)
-                cmds += corpus.sample(groups["Xvoc"], 80, seed + i)
-                cmds += corpus.sample(groups["R"], 80, seed + i)
+                cmds += corpus.sample(groups["Xrule"], 100, seed + i)
+                cmds += corpus.sample(groups["Xvoc"], 60, seed + i)
+                cmds += corpus.sample(groups["R"], 60, seed + i)
             else:
                 basic = len(argv) <= 2          # -greedy alone or with one more flag
-                cmds += groups["Xrule"]
-                cmds += groups["Xchain"] if basic else corpus.sample(groups["Xchain"], 1500, seed + i)
-                cmds += groups["Xvoc"] if basic else corpus.sample(groups["Xvoc"], 3000, seed + i)
-                cmds += groups["S"] if basic else corpus.sample(groups["S"], 300, seed + i)
-                cmds += groups["R"] if basic else corpus.sample(groups["R"], 1500, seed + i)
+                cmds += groups["Xrule"] if basic else corpus.sample(groups["Xrule"], 400, seed + i)
+                cmds += corpus.sample(groups["Xchain"], 20000 if basic else 300, seed + i)
+                cmds += corpus.sample(groups["Xvoc"], 15000 if basic else 300, seed + i)
+                cmds += groups["S"] if basic else corpus.sample(groups["S"], 100, seed + i)
+                cmds += groups["R"] if basic else corpus.sample(groups["R"], 500, seed + i)
             jobs.append((name, argv, [dict(c) for c in cmds]))
     return jobs
 
@@ -175,7 +175,7 @@ def plain_of(instrs):
 def run(tier):
     t0 = time.time()
     seed = common.seed()
-    cap = 48 if tier == "quick" else 512
+    cap = 48 if tier == "quick" else 256
     groups, gstats = build_corpus(tier, seed)
     jobs = plan(tier, groups, seed)
     results = pool.run_matrix([(argv, cmds) for _, argv, cmds in jobs], timeout=20)
